@@ -49,6 +49,7 @@ type Flow struct {
 	Group    string    `json:"group,omitempty"`
 	NoSync   bool      `json:"no_sync,omitempty"` // executeHookOnSynchronization: false
 	Initial  []Item    `json:"initial,omitempty"`
+	Window   bool      `json:"window,omitempty"` // a window case (win.go): the events are still locked when the operations begin; Ctxs also hold "sync" and "unlock"
 }
 
 // FlowFile is one rendered binding-context file.
@@ -58,6 +59,12 @@ type FlowFile struct {
 	Snaps []SnapIds `json:"snaps,omitempty"` // the context's Snapshots: names sorted, ResourceIds in their order
 	Out   string    `json:"out"`             // ConvertBindingContextList(version, UpdateSnapshots(ctxs)).Json()
 	N     int       `json:"n"`               // number of contexts in the file
+	Sync  bool      `json:"sync,omitempty"`  // window cases: the file of a run of the Synchronization hook
+	Rejq  *Rejq     `json:"rejq,omitempty"`  // window cases: /usr/bin/jq JQFILTER on the `object` this Event file shows
+}
+
+type Rejq struct {
+	Outs []any `json:"outs"`
 }
 
 type SnapIds struct {
@@ -245,6 +252,9 @@ func (l *lateStart) startAll() {
 
 func runFlow(in Input) (obs Obs) {
 	f := in.Flow
+	if f.Window {
+		return runWindow(in)
+	}
 	log.SetDefaultLevel(log.LevelFatal)
 	kem.DefaultSyncTime = time.Millisecond
 	kem.DefaultFactoryStore.Reset()
@@ -422,6 +432,9 @@ func coqWev(t string) string {
 
 func renderFlow(in Input, obs *Obs, crash string) core.Case {
 	f := in.Flow
+	if f.Window {
+		return renderWindow(in, obs, crash)
+	}
 	c := core.Case{}
 	evs := watchEvents(f, in.Ctxs)
 	binding := fmt.Sprintf("(mkBinding %s %s %s %s %s %s %s)", core.CoqBytes(f.bindingName()), core.CoqBool(f.JqFilter != ""),
